@@ -10,8 +10,10 @@ HOOKS = {
 }
 
 ENGINES = [
-    {"name": "E1 tabsym", "path": "vlib/e1.py", "serves_properties": ["C01"],
+    {"name": "E1 tabsym", "path": "vlib/e1.py", "serves_properties": ["C01","C04","C05","C12","C13","C14","C15","C25"],
      "kind_free_text": "Kani/CBMC bounded model checking of the real generated table functions (harness injected into the generated module), CYK oracle from an independent specification CFG"},
+    {"name": "kernels", "path": "vlib/kernel.py", "serves_properties": ["C28"],
+     "kind_free_text": "Kani/CBMC harness crates over library kernels of lalrpop-util with Kani concrete playback as native replay"},
 ]
 
 NOTES = ("Technique family: solver-based checking of the real code (Kani/CBMC, z3). Every result is bounded; bounds and what lies "
@@ -27,8 +29,43 @@ chk("C01", "E1 tabsym", "model_checking",
     "accepts iff a CYK recogniser over the specification grammar does; bound exhaustion is asserted unreachable.",
     E1_NOTE, "bounded model checking (Kani/CBMC+CaDiCaL) of compiled generated tables vs CYK oracle, symbolic token sequences", "DESIGN.md §2 E1, §3 C01")
 
+chk("C04", "E1 tabsym", "model_checking",
+    "For each corpus grammar x 3 algorithms x pub start: for ALL token sequences up to N (quick 5, thorough 7) CBMC decides that the LR run over the real "
+    "generated tables rejects exactly at the first token whose prefix is not a prefix of any sentence (oracle: CYK over CNF(Pre(G))), at end of input iff every "
+    "prefix is viable, and never reaches an accept action with input left (no ExtraToken). Exact token/span/EOF location are compared on native runs of the public parse() "
+    "for all inputs up to length 3/4 and on every replayed counterexample.",
+    E1_NOTE, "bounded model checking (Kani/CBMC) of generated tables vs viable-prefix CYK oracle", "DESIGN.md §3 C04")
+chk("C05", "E1 tabsym", "model_checking",
+    "For all rejected inputs up to N (quick 4, thorough 6) and every terminal t: simulating the real tables from the error stack on t reaches shift/accept only if "
+    "prefix.t is viable (all algorithms), and iff for canonical LR(1). The generated __accepts/__expected_tokens_from_states run natively on all inputs up to length 3/4 "
+    "(soundness, completeness for LR(1), duplicates).",
+    E1_NOTE, "bounded model checking (Kani/CBMC) of generated tables: error-stack simulation vs viable-prefix oracle, symbolic inputs and candidate terminal", "DESIGN.md §3 C05")
+_SUGAR = ("language of the real generated tables == language of the documented desugaring computed on the specification side (corpus/gram.py), for ALL token "
+          "sequences up to N (quick 5, thorough 7), decided by CBMC; ")
+chk("C12", "E1 tabsym", "model_checking", _SUGAR + "corpus: calculator, right/none/prefix/postfix/ternary, restated level, inheritance, interleaved and non-contiguous levels, "
+    "nested occurrences, outside references, plus a VERIF_SEED-driven shuffled operator table.", E1_NOTE,
+    "bounded model checking (Kani/CBMC): tables of the annotated grammar vs CYK over the independently tiered grammar", "DESIGN.md §3 C12")
+chk("C13", "E1 tabsym", "model_checking", _SUGAR + "corpus: Comma<T>, X*/X+/X? on terminals, nonterminals and groups, conditions == != ~~ !~ over three instantiations, nested "
+    "macro uses, close-but-distinct instantiations, forwarding of parameters. Values (Vec/Option/tuple) are not covered here.", E1_NOTE,
+    "bounded model checking (Kani/CBMC): tables of the macro grammar vs CYK over the substituted grammar", "DESIGN.md §3 C13")
+chk("C14", "E1 tabsym", "model_checking", _SUGAR + "for every subset of the inlinable nonterminals of each base grammar (all 2^k, k<=3 in thorough; none/all/singletons in quick) "
+    "the tables are equivalent to the same specification CFG. Action order/values of inlined actions are not covered here.", E1_NOTE,
+    "bounded model checking (Kani/CBMC): tables of each inlined variant vs the same CYK oracle", "DESIGN.md §3 C14")
+chk("C15", "E1 tabsym", "model_checking", _SUGAR + "for every feature set (all 2^k) given by --features and via CARGO_FEATURE_* through the library API; the real "
+    "__token_to_integer must map every active terminal; plus generator-verdict differential against the physically deleted grammar.", E1_NOTE,
+    "bounded model checking (Kani/CBMC) per exhaustively enumerated feature set: tables vs CYK over the deleted grammar", "DESIGN.md §3 C15")
+chk("C25", "E1 tabsym", "model_checking", "PARTIAL (nonterminal/macro/macro-parameter names only): " + _SUGAR + "for adversarial renamings (`__`-prefixed names, names LALRPOP "
+    "derives internally, `Name<level>` next to a precedence-annotated `Name`, seeded picks) the generator's verdict is unchanged and the renamed tables are equivalent to the same specification CFG.",
+    E1_NOTE, "bounded model checking (Kani/CBMC) of tables generated from adversarially renamed grammars vs the unchanged CYK oracle", "DESIGN.md §3 C25")
+chk("C28", "kernels", "model_checking",
+    "Kani on lalrpop-util/src/lib.rs: map_location/map_token/map_error on a fully symbolic ParseError<u8,u16,u32> (all variants, all payload values; call order and count of the "
+    "closure; expected list untouched), From<E>; Display/fmt_expected for every variant with symbolic single-letter payloads and expected lists of each concrete length 0..3 (thorough 0..5), "
+    "byte-for-byte against the documented text.",
+    "Trusted: rustc/Kani/CBMC; one instantiation of the generic helpers; Display list lengths are concrete (symbolic lengths do not terminate in CBMC here).",
+    "bounded model checking (Kani/CBMC) of lalrpop-util helpers over symbolic error values; counterexamples replayed by Kani concrete playback", "DESIGN.md §3 C28")
+
 _pending = "check not built yet in this session (see DESIGN.md plan); will be claimed when its engine lands"
-for p in ["C02","C03","C04","C05","C06","C08","C09","C10","C11","C12","C13","C14","C15","C16","C17","C25","C28"]:
+for p in ["C02","C03","C06","C08","C09","C10","C11","C16","C17"]:
     NA[p] = _pending
 NA["C07"] = "needs symbolic execution of the generated recursive-ascent code; Kani cannot (probe P2: >7 GB at N=1), not generic so the native symbolic driver cannot instantiate it"
 NA["C18"] = "the code is the grammar-file tokenizer, the self-hosted parser and the normaliser over interned strings/BTreeMaps; the tokenizer does not fit Kani even for 2 symbolic characters (probe P13)"
